@@ -19,6 +19,7 @@ EXPLANATION = (
     "(never rebound), so a running handler cannot be forgotten. This claim is thin by nature (three guards); eventual "
     "dispatch, per-source order under slow handlers and timing are liveness and are not claimed."
     " C15.1 also (shared with C13.4): the time queued is the time given."
+    " C15.1 also: in _push_scheduled the job started is the job popped, popped before the pool is awaited. C15.3 locates idle-handler invocations by content and checks their CFG path conditions."
 )
 TRUSTED = ["CPython ast parser", "sa.cfg statement CFG"]
 
